@@ -128,12 +128,21 @@ theorem crop_norebase_span_lax (t : ITier Int) (hwf : t.WF) (a b : Int) (hab : a
     · left; exact h'
     · right; obtain ⟨o, ho, he⟩ := List.mem_map.1 h'; exact ⟨o, ho, he.symm⟩
 
+/-- in exact arithmetic every rebased piece keeps its positive length: the filter of the repaired code is the identity -/
+theorem rebaseIvs_of_pos (d : Int) (sel : List (Iv Int)) (hp : Pos (sel.map (shiftIv d))) :
+    rebaseIvs d sel = sel.map (shiftIv d) := by
+  unfold rebaseIvs
+  apply List.filter_eq_self.2
+  intro iv hiv
+  have := hp iv hiv
+  simpa using this
+
 /-- a window that selects nothing gives an empty tier with the window as span — never an error -/
 theorem crop_empty_ok (t : ITier Int) (a b : Int) (hab : a < b) (m : CropMode) (r : Bool)
     (hsel : getIvs a b m t.es = []) :
     t.crop a b m r = .ok ⟨t.name, [], if r then 0 else a, if r then b - a else b⟩ := by
   cases r <;>
-    simp [ITier.crop, show ¬ b ≤ a by omega, hsel, mkITier, sortIvs, pyMinList, pyMaxList,
+    simp [ITier.crop, rebaseIvs, show ¬ b ≤ a by omega, hsel, mkITier, sortIvs, pyMinList, pyMaxList,
       ivsAllPos, ivsNoOverlap, Tm.zero]
 
 /-! ## the label-at-every-time function of a truncated crop -/
@@ -222,6 +231,7 @@ theorem crop_rebase (t : ITier Int) (hwf : t.WF) (a b : Int) (hab : a < b) (m : 
   have hdl := rebaseDelta_le a (getIvs a b m t.es) hw.1 hw.2.1
   refine ⟨t', ?_, h2, h4, h3, ?_, ?_⟩
   · simp only [ITier.crop, show ¬ b ≤ a by omega, if_false, if_true]
+    rw [rebaseIvs_of_pos _ _ hsh.1]
     exact h1
   · rw [h5]; apply hullMin_eq_of_le
     intro x hx
